@@ -30,6 +30,7 @@ from hypothesis import strategies as st
 from . import ref_t2
 
 LIMIT = {"cff": 48, "cff2": 513}
+_HINTISH = {"hstem", "vstem", "hstemhm", "vstemhm", "hintmask", "cntrmask"}
 BOX_LO, BOX_HI = -16384, 16383
 
 _EDGE_INTS = [107, 108, -107, -108, 1131, 1132, -1131, -1132, 106, 109, 1130, 1133, 255, 256, -255, -256]
@@ -381,13 +382,15 @@ def _flat_program(draw, fmt="cff", mode=None, frac=None, hint_block=None, motifs
         width = draw(st.one_of(st.integers(0, 1300), st.sampled_from([107, 108, 1131, 1132, 0, 1, 32767]), st.integers(-200, 200)))
         if nwx + width < 0:
             width = abs(width) + max(0, -nwx)
+        if frac and draw(_int(0, 3)) == 0:
+            width += draw(_pick([0.5, 0.25, 1 / 65536.0]))
         if nwx + width > 32767:
             # hmtx/OS/2 consumers (and HarfBuzz) treat advances as int16
             width = 32767 - nwx
-        if frac and draw(_int(0, 3)) == 0:
-            width += draw(_pick([0.5, 0.25, 1 / 65536.0]))
         toks.append(width)
-    budget0 = limit - (1 if has_width else 0)
+    # the first stack-clearing operator leaves room for a width even when the program has none
+    # (excluded class, finding: convertCFF2ToCFF puts a width in front of a 48-operand stem operator)
+    budget0 = limit - 1
     nstems = 0
     shape = draw(_int(0, 19))  # 0: empty glyph
     if hint_block is not None:
@@ -690,26 +693,30 @@ def _cut(draw, items, i, j, bodies, keys, flat_of, notes):
     if depth + 1 > LIMIT["cff"]:
         return items
     ends_char = bool(body) and body[-1][0] == "tok" and body[-1][1] == ("endchar",)
-    if ends_char and (len(body) == 1 or draw(_B)):
-        if len(body) == 1:
-            # excluded class (finding): remove_hints deletes the call to a subr that is only "endchar"
-            notes.append("subr-consisting-only-of-endchar")
-        # leave endchar in the caller
-        body = body[:-1]
-        j -= 1
-        ends_char = False
-    if not body and depth != 0:
-        # excluded class (finding): remove_hints treats a subr "<operands> <call to empty subr>" as empty
-        notes.append("call-to-empty-subr-with-pending-operands")
-        return items
-    term = None if ends_char else "return"
-    kind = draw(_pick("llg"))
     flat_body = []
     for it in body:
         if it[0] == "tok":
             flat_body.extend(it[1])
         else:
             flat_body.extend(flat_of(bodies[it[1]][it[2]][0]))
+    if ends_char:
+        hint_only = not any(isinstance(t, str) and t not in _HINTISH for t in flat_body[:-1])
+        if hint_only:
+            # excluded class (finding): remove_hints never inspects the last token of a subr, so a
+            # subr whose only non-hint operator is its final endchar counts as empty and its call is deleted
+            notes.append("subr-whose-only-non-hint-operator-is-its-final-endchar")
+        if hint_only or draw(_B):
+            # leave endchar in the caller
+            body = body[:-1]
+            flat_body = flat_body[:-1]
+            j -= 1
+            ends_char = False
+    if not body and depth != 0:
+        # excluded class (finding): remove_hints treats a subr "<operands> <call to empty subr>" as empty
+        notes.append("call-to-empty-subr-with-pending-operands")
+        return items
+    term = None if ends_char else "return"
+    kind = draw(_pick("llg"))
     key = (kind, repr(flat_body), term)
     if key in keys:
         bi = keys[key]
